@@ -689,8 +689,18 @@ func checkVectorDB(r *rand.Rand, chunks []*rag.Chunk, c *fw.Ctx) *fail {
 		}
 		buf.Reset()
 		if err := ee.ExportForPinecone(chunks, bad, &buf); err == nil {
-			if objs, err := decodeObjects(buf.String()); err != nil || len(objs) != 1 {
+			objs, err := decodeObjects(buf.String())
+			if err != nil || len(objs) != 1 {
 				return failf("pinecone-syntax/non-finite", "ExportForPinecone returned nil with a non-finite embedding component, output rejected by encoding/json: %v", err)
+			}
+			want := 0
+			for i := range chunks {
+				if i < len(bad) && len(bad[i]) > 0 {
+					want++
+				}
+			}
+			if vecs, _ := objs[0]["vectors"].([]any); len(vecs) != want {
+				return failf("pinecone-count/non-finite", "ExportForPinecone returned nil with a non-finite component in embedding %d of %d: %d vectors for %d chunks with embeddings", at, len(bad), len(vecs), want)
 			}
 		}
 		buf.Reset()
